@@ -500,6 +500,20 @@ def gen_scenario(ctx, tag, kind, imgs, sizes, variant=None):
             s.pairs.append((i, j))
             s.fresh(first, i)
             s.ctl("views")
+    # questions that succeed on every image, to copy and original while both are alive (so that "the copy answered like its twin"
+    # is about real answers for every kind, not about equal error codes)
+    sure = {"meta": ["seek 0 0", "read 16", "read 100", "pos"], "xattr": ["desc 0", "readall 0", "first 0", "readall 1"], "dir": ["list /", "resolve /"],
+            "fragtable": ["size", "lookup 0"], "file": ["size", "read 0 96"]}.get(kind, []) if not damaged else []
+    for op in sure:
+        ic = None
+        for t, tw in (("c", "t2"), ("o", "t1")):
+            i = s.op(t, op); j = s.op(tw, op)
+            s.pairs.append((i, j))
+            if t == "c":
+                ic = i
+            elif kind == "meta":
+                s.pairs.append((ic, i))               # both were positioned by the same seek
+        s.ctl("views")
     post = hist_ops(r.choice([1, 3, 6, 12]))
     if kind == "xwr":
         post = post + ["flush"] * 2
@@ -1571,8 +1585,8 @@ def run(ctx):
         if s.kind in okpat:
             okcount[s.kind] += sum(1 for l, a in zip(s.lines, hans) if l.startswith("c ") and re.match(okpat[s.kind], a))
     for k, v in okcount.items():
-        if v == 0:
-            raise vlib.CheckFailure("no operation on a copied %s object succeeded in this run: the comparison with the twin says nothing" % k)
+        if v < 5:
+            raise vlib.CheckFailure("only %d operations on copied %s objects succeeded in this run: the comparison with the twin says (almost) nothing: %s" % (v, k, okcount))
     # per compressor and mode (compress / uncompress) and per forced configuration: a successful copy that then worked
     comp_modes = {}
     for s, (hans, _) in zs(scs, hres):
